@@ -286,7 +286,7 @@ package prover
 //@   ensures deref(i) >= 0 ==> result == str.concat("0x", str.hex16(deref(i)))
 
 //@ func (*Proof) MarshalJSON
-//@   property C10 C13
+//@   property C10 C13 C09
 //@   let raw = p.Proof.raw
 //@   let coord0 = str.concat("0x", str.hex16(bytes.beIntFrom(raw, 0, 32)))
 //@   let coord1 = str.concat("0x", str.hex16(bytes.beIntFrom(raw, 32, 64)))
@@ -353,7 +353,7 @@ package prover
 //@     decreases len(p.MerkleProofs[i]) - j
 
 //@ func (*InsertionParameters) UnmarshalJSON
-//@   property C16 C13
+//@   property C16 C13 C09
 //@   modifies p
 //@   let allNum = str.isNum(json.pStr(data, "inputHash")) &&
 //@       str.isNum(json.pStr(data, "preRoot")) &&
@@ -419,7 +419,7 @@ package prover
 //@     decreases len(p.MerkleProofs[i]) - j
 
 //@ func (*DeletionParameters) UnmarshalJSON
-//@   property C16 C13
+//@   property C16 C13 C09
 //@   modifies p
 //@   let allNum = str.isNum(json.pStr(data, "inputHash")) &&
 //@       str.isNum(json.pStr(data, "preRoot")) &&
